@@ -342,10 +342,12 @@ class PVLEncoder(object):
         """Returns a ``str`` formatted as a PVL Value based
         on the *value* object according to the rules of this encoder.
         """
-        try:
-            return self.encode_quantity(value)
-        except ValueError:
-            return self.encode_simple_value(value)
+        for quant in self.quantities:
+            if isinstance(value, quant.cls):
+                # A ValueError from here is about the quantity itself.
+                return self.encode_quantity(value)
+
+        return self.encode_simple_value(value)
 
     def encode_quantity(self, value) -> str:
         """Returns a ``str`` formatted as a PVL Value followed by
